@@ -88,6 +88,7 @@ fn run_one(model: &str, prog: &J, chooser: &mut dyn FnMut(&[(usize, &'static str
         }
         "txm" => crate::conc_txm::run(prog, chooser),
         "buf" => crate::conc_buf::run(prog, chooser),
+        "lpg" => crate::conc_lpg::run(prog, chooser),
         _ => panic!("unknown model"),
     }
 }
